@@ -252,6 +252,12 @@ def weld (m : MeshVal α) (k : AttrKey) (key : α → K) : Option (MeshVal α) :
       some (m'.compactVertices (usedFlags cls.length newTris))
   else none
 
+/-- the welded index list expressed in the *input's* vertex numbering: every corner of a
+    surviving triangle re-pointed at the representative (first vertex) of its key class -/
+def weldRepIdx (key : α → K) (d : List α) (idx : List Nat) : List Nat :=
+  let cls := firsts key d
+  (untriples ((triples idx).filterMap (weldTri key d cls))).filterMap fun c => (cls.map (·.2))[c]?
+
 end weld
 
 end MeshVal
